@@ -101,6 +101,16 @@ def gen_case(rng):
             allnames.append(n)
             names.append(n)
         tags.add("names:differ-only-by-trailing-underscore")
+    if rng.random() < 0.12:
+        # a very long name (deeply nested components flatten to such names): longer than any line width a code
+        # generator might wrap at
+        ln = "longName" + "".join(rng.choice(["Stage", "Shaft", "Bearing", "Friction", "Gearbox", "Axle"]) for _ in range(rng.randint(12, 20)))
+        pf = rng.choice([[], [], ["parameter"], ["input"]])
+        prefixes[ln] = list(pf)
+        decls.append("  %sReal %s%s;" % ("".join(p_ + " " for p_ in pf), ln, " = 1.5" if pf == ["parameter"] else ""))
+        allnames.append(ln)
+        names.append(ln)
+        tags.add("names:longer-than-90-characters")
     if "ext:discrete-variable" in tags:
         decls.append("  discrete Real d9;")
         prefixes["d9"] = ["discrete"]
@@ -150,6 +160,12 @@ def gen_case(rng):
             rhs = ("bin", "+", rhs, ("der", var(s2)))
             states.add(s2)
             tags.add("der:inside-expression")
+        if rng.random() < 0.15 and unknowns:
+            # a derivative as the direct argument of a function call
+            s2 = rng.choice(unknowns)
+            rhs = ("bin", rng.choice("+-*"), rhs, ("call", rng.choice(["sin", "cos"]), [("der", var(s2))]))
+            states.add(s2)
+            tags.add("der:as-call-argument")
         ins = [n for n in allnames if prefixes[n] == ["input"] and "." not in n]
         if ins and rng.random() < 0.3:
             # a differentiated input stays an input
